@@ -19,6 +19,8 @@ pub struct Stratum {
     pub ret: Ty,
     pub prods: Prods,
     pub max_size: usize,
+    /// a family written out by hand instead of enumerated from `prods`
+    pub custom: Option<fn() -> Vec<Expr>>,
 }
 
 fn ps(v: &[(&str, Ty)]) -> Vec<(String, Ty)> {
@@ -33,12 +35,15 @@ pub fn strata(tier: Tier) -> Vec<Stratum> {
     };
     let eq_basic = vec![Ty::Bool, Ty::Bytes];
     vec![
+        // (first: small, and a wall cap must never cut it)
+        Stratum { name: "repeated-operators", params: ps(&[("a", Ty::Int), ("b", Ty::Int), ("c", Ty::Int)]), ret: Ty::Int, prods: Default::default(), max_size: 0, custom: Some(repeated_operator_bodies) },
         Stratum {
             name: "arith-compare-if-let",
             params: ps(&[("a", Ty::Int), ("b", Ty::Int)]),
             ret: Ty::Int,
             prods: Prods { arith: true, compare: true, if_: true, let_: true, ..Default::default() },
             max_size: 6 + b,
+            custom: None,
         },
         Stratum {
             name: "bool-connectives-abort-trace",
@@ -46,6 +51,7 @@ pub fn strata(tier: Tier) -> Vec<Stratum> {
             ret: Ty::Bool,
             prods: Prods { compare: true, connectives: true, if_: true, aborts: true, traces: true, arith: true, eq_types: eq_basic.clone(), ..Default::default() },
             max_size: 5 + b,
+            custom: None,
         },
         Stratum {
             name: "when-ctors-fields(shape)",
@@ -53,6 +59,7 @@ pub fn strata(tier: Tier) -> Vec<Stratum> {
             ret: Ty::Int,
             prods: Prods { arith: true, when: true, ctors: true, if_: true, compare: true, ..Default::default() },
             max_size: 6 + b,
+            custom: None,
         },
         Stratum {
             name: "when-ctors-fields(rec,tuple)",
@@ -60,6 +67,7 @@ pub fn strata(tier: Tier) -> Vec<Stratum> {
             ret: Ty::Adt("Rec"),
             prods: Prods { arith: true, when: true, ctors: true, fields: true, compare: true, connectives: true, ..Default::default() },
             max_size: 6 + b,
+            custom: None,
         },
         Stratum {
             name: "when-option-color-tree",
@@ -67,6 +75,7 @@ pub fn strata(tier: Tier) -> Vec<Stratum> {
             ret: t_opt_int(),
             prods: Prods { arith: true, when: true, ctors: true, helpers: true, ..Default::default() },
             max_size: 6 + b,
+            custom: None,
         },
         Stratum {
             name: "lists-recursion-helpers",
@@ -74,6 +83,7 @@ pub fn strata(tier: Tier) -> Vec<Stratum> {
             ret: Ty::Int,
             prods: Prods { arith: true, when: true, lists: true, helpers: true, ..Default::default() },
             max_size: 5 + b,
+            custom: None,
         },
         Stratum {
             name: "lists-build",
@@ -81,6 +91,7 @@ pub fn strata(tier: Tier) -> Vec<Stratum> {
             ret: t_list_int(),
             prods: Prods { arith: true, when: true, lists: true, helpers: true, lambdas: true, ..Default::default() },
             max_size: 6 + b,
+            custom: None,
         },
         Stratum {
             name: "expect-option-list-shape",
@@ -88,6 +99,7 @@ pub fn strata(tier: Tier) -> Vec<Stratum> {
             ret: Ty::Int,
             prods: Prods { arith: true, expect: true, if_: true, compare: true, ..Default::default() },
             max_size: 6 + b,
+            custom: None,
         },
         Stratum {
             name: "data-casts",
@@ -95,6 +107,7 @@ pub fn strata(tier: Tier) -> Vec<Stratum> {
             ret: Ty::Bool,
             prods: Prods { casts: true, compare: true, ctors: true, lists: true, when: true, eq_types: vec![Ty::Data, t_opt_int(), Ty::Adt("Shape")], ..Default::default() },
             max_size: 6 + b,
+            custom: None,
         },
         Stratum {
             name: "data-upcast",
@@ -102,6 +115,7 @@ pub fn strata(tier: Tier) -> Vec<Stratum> {
             ret: Ty::Data,
             prods: Prods { casts: true, ctors: true, lists: true, arith: true, ..Default::default() },
             max_size: 5 + b,
+            custom: None,
         },
         Stratum {
             name: "lambdas-hofs-strictness",
@@ -109,6 +123,7 @@ pub fn strata(tier: Tier) -> Vec<Stratum> {
             ret: Ty::Int,
             prods: Prods { arith: true, lambdas: true, helpers: true, aborts: true, if_: true, compare: true, ..Default::default() },
             max_size: 5 + b,
+            custom: None,
         },
         Stratum {
             name: "equality-structural",
@@ -116,6 +131,7 @@ pub fn strata(tier: Tier) -> Vec<Stratum> {
             ret: Ty::Bool,
             prods: Prods { compare: true, ctors: true, lists: true, connectives: true, eq_types: vec![Ty::Adt("Shape"), t_opt_int(), t_list_int(), t_tuple_ib(), Ty::Adt("Tree")], ..Default::default() },
             max_size: 5 + b,
+            custom: None,
         },
         Stratum {
             name: "trace-operands",
@@ -123,6 +139,7 @@ pub fn strata(tier: Tier) -> Vec<Stratum> {
             ret: Ty::Bool,
             prods: Prods { compare: true, arith: true, traces: true, trace_args: true, if_: true, ..Default::default() },
             max_size: 5 + b,
+            custom: None,
         },
         Stratum {
             name: "pairs-boxes",
@@ -130,8 +147,42 @@ pub fn strata(tier: Tier) -> Vec<Stratum> {
             ret: Ty::Int,
             prods: Prods { arith: true, when: true, ctors: true, let_: true, ..Default::default() },
             max_size: 6 + b,
+            custom: None,
         },
     ]
+}
+
+/// Bodies in which one operator is applied 1-4 times to the *same constant* on the same side
+/// and different non-constant operands.  The size bounds of the enumerated strata never reach
+/// three occurrences of `x < 10`, which is exactly where the optimiser starts sharing the
+/// partial application `[builtin 10]` between call sites (builtin_curry_reducer).
+pub fn repeated_operator_bodies() -> Vec<Expr> {
+    let v = |x: &str| Expr::Var(x.into());
+    let int = |i: i64| Expr::Int(num_bigint::BigInt::from(i));
+    let bin = |op: Op, a: Expr, b: Expr| Expr::Bin(op, Rc::new(a), Rc::new(b));
+    let operands = [v("a"), v("b"), v("c"), bin(Op::Add, v("a"), v("b"))];
+    let mut out = vec![];
+    for op in [Op::Lt, Op::Le, Op::Gt, Op::Ge, Op::Eq, Op::Ne, Op::Add, Op::Sub, Op::Mul, Op::Div, Op::Mod] {
+        let boolean = matches!(op, Op::Lt | Op::Le | Op::Gt | Op::Ge | Op::Eq | Op::Ne);
+        for k in [10i64, 1, 0, -3] {
+            for const_right in [true, false] {
+                for n in 1..=4usize {
+                    let mut body: Option<Expr> = None;
+                    for (j, x) in operands.iter().take(n).enumerate() {
+                        let app = if const_right { bin(op, x.clone(), int(k)) } else { bin(op, int(k), x.clone()) };
+                        let weight = int(if boolean { 1 << j } else { 1000i64.pow(j as u32) });
+                        let term = if boolean { Expr::If(Rc::new(app), Rc::new(weight), Rc::new(int(0))) } else { bin(Op::Mul, app, weight) };
+                        body = Some(match body {
+                            None => term,
+                            Some(acc) => bin(Op::Add, acc, term),
+                        });
+                    }
+                    out.push(body.unwrap());
+                }
+            }
+        }
+    }
+    out
 }
 
 pub fn function_source(name: &str, st: &Stratum, body: &Expr) -> String {
@@ -256,8 +307,13 @@ impl Worker {
         if let Some(b) = self.bodies.get(&idx) {
             return b.clone();
         }
-        let mut g = Gen::new(st.prods.clone());
-        let v = Rc::new(g.all_upto(&st.ret, st.max_size, &st.params));
+        let v = match st.custom {
+            Some(f) => Rc::new(f().into_iter().map(Rc::new).collect::<Vec<_>>()),
+            None => {
+                let mut g = Gen::new(st.prods.clone());
+                Rc::new(g.all_upto(&st.ret, st.max_size, &st.params))
+            }
+        };
         self.bodies.insert(idx, v.clone());
         v
     }
